@@ -5,8 +5,10 @@ S = os.path.join(os.path.dirname(os.path.dirname(os.path.abspath(__file__))), "s
 
 
 def title(meta, name):
-    k = int(name.split("-")[1])
-    k = 1 if k % 2 == 1 else 2        # every sub-agent wrote two changes: stored as (1,2), (3,4), (5,6), ...
+    k = meta.get("change_no")
+    if k is None:
+        k = int(name.split("-")[1])
+        k = 1 if k % 2 == 1 else 2    # every property sub-agent wrote two changes: stored as (1,2), (3,4), (5,6), ...
     r = meta.get("agent_readme", "")
     for l in r.splitlines():
         m = re.match(r"^#+\s*(?:Change|Patch|Mutation|Seeded change)\s*%d\b\s*[-:—(]*\s*(.*)$" % k, l.strip(), flags=re.I)
@@ -24,7 +26,7 @@ for n in sorted(os.listdir(S)):
         continue
     m = json.load(open(p))
     cb = m.get("caught_by", {})
-    own = n.split("-")[0]
+    own = m.get("property") or n.split("-")[0]
     catchers = [c for c, v in sorted(cb.items()) if v.get("caught")]
     inp = [c for c in catchers if cb[c].get("with_failing_input")]
     first = cb.get(own) if cb.get(own, {}).get("caught") else (cb[catchers[0]] if catchers else None)
